@@ -3,7 +3,10 @@ import PyatvModel.C09.Model
 /-
 Line protocol (stateless, one case per line):
 
-  seq <listener> <protos> <events>
+  seq <listener> <protos> <events> [<connected0>]
+     connected0 : how many protocols FacadeAppleTV.connect() has registered when the history starts (default all);
+                  event `c` = the next protocol's connect() completes;  `sF` = push_updater.start() in which a
+                  protocol's own updater raises
      listener : n | a | d                         (never set | alive | garbage-collected)
      protos   : csv of <tasks>:<reports>          reports = `.`-joined reports emitted by close(): <kind><beh> ; `-` none
                 kind = c | l<e>                   e.g.  1:c,0:-,2:l7.c~a10+u!
@@ -70,6 +73,8 @@ def parseEv? (w : String) : Option Ev :=
   | ['s'] => some .pushStart
   | ['t'] => some .pushStop
   | ['x'] => some .dropDevice
+  | ['c'] => some .connectNext
+  | ['s', 'F'] => some .pushStartFault
   | ['L', '0'] => some (.setListener false)
   | ['L', '1'] => some (.setListener true)
   | ['L', '2'] => some (.setListener true)
@@ -108,6 +113,7 @@ def Out.toStr : Out → String
   | .badMember => "bad-member"
   | .delivered b => if b then "d1" else "d0"
   | .gone => "gone"
+  | .faulted => "faulted"
 
 def innerToStr (e : Bool × InEv × Out) : String :=
   let who := if e.1 then "d" else "p"
@@ -123,10 +129,11 @@ def handle (_ : Unit) (ws : List String) : Unit × String :=
   match ws with
   | ["table"] =>
     ((), s!"{Gen.C09.members.length} {Gen.C09.objects.length} {Gen.C09.pushObj} {Gen.C09.maxCalls}")
-  | ["seq", l, ps, es] =>
-    match parseListener? l, (csvList? ps).mapM parseProto?, (csvList? es).mapM parseEv? with
-    | some l, some ps, some es =>
-      let cfg := facadeCfg l ps
+  | "seq" :: l :: ps :: es :: rest =>
+    match parseListener? l, (csvList? ps).mapM parseProto?, (csvList? es).mapM parseEv?,
+        (match rest with | [] => some none | [c] => c.toNat?.map some | _ => none) with
+    | some l, some ps, some es, some c0 =>
+      let cfg := facadeCfgC l ps (c0.getD ps.length)
       let n := cfg.members.length
       let okEv := es.all fun e => match e with
         | .api m => m < n | .report _ _ b => inRange n b | .push _ b => inRange n b | _ => true
@@ -141,7 +148,7 @@ def handle (_ : Unit) (ws : List String) : Unit × String :=
         ((), s!"{csv (outs.map Out.toStr)} N={csv (s.notified.map Report.toStr)} C={s.callsMade} "
           ++ s!"K={csv (s.closeLog.map toString)} P={pend} B={bits} S={if s.pushOn then 1 else 0} "
           ++ s!"R={if s.raised then 1 else 0} I={csv (s.inner.map innerToStr)}")
-    | _, _, _ => ((), "bad-op")
+    | _, _, _, _ => ((), "bad-op")
   | _ => ((), "bad-op")
 
 end PyatvModel.C09
